@@ -33,9 +33,11 @@ namespace smt
     public:
       virtual ~tracer() = default;
       // sat_core
+      virtual void new_sat_var(const sat_core &, var) {}                                      // new_var() -> id
       virtual void clause(const sat_core &, const std::vector<lit> &, bool) {}             // new_clause(lits as given) -> result
       virtual void learnt(const sat_core &, const std::vector<lit> &, int) {}              // sat_core::record(lits), origin
       virtual void def_bool(const sat_core &, const char *, const std::vector<lit> &, lit) {} // new_eq/new_conj/new_disj/new_at_most_one/new_exct_one(args) -> result
+      virtual void new_lra_var(const void *, var) {}                                           // lra_theory::new_var() -> id (slack variables included)
       // lra_theory: relation op in {"lt","leq","geq","gt"} between two linear expressions -> result
       virtual void def_lra(const void *, const char *, const lin &, const lin &, lit) {}
       // idl/rdl_theory: 'to - from <= dist' -> result ; relation between two expressions -> result
